@@ -74,7 +74,8 @@ def gen_case(rng, supervised, lda_tail=False):
   output_iter = int(rng.choice([1, 4, 6, 12]))
   bsz = int(rng.integers(1, 5))
   beta = float(rng.choice([1e-5, 1e-3, 1e-2]))
-  gamma = float(rng.choice([5e-3, 5e-2, 0.5]))
+  # (weights scale like 1 / gamma: a huge gamma gives strictly positive weights of order 1e-10 - still ACTIVE bases)
+  gamma = float(rng.choice([5e-3, 5e-2, 0.5, 0.5, 2.0 ** 33]))
   bkind = 'lda' if lda_tail else str(rng.choice(['triplet_diffs', 'array'] + (['lda'] if supervised else [])))
   # (odd values: with two LDA directions per region the last region then contributes only part of its directions)
   nbasis = int(rng.choice([7, 9, 13])) if lda_tail else int(rng.choice([6, 7, 9, 10, 13, 16]))
